@@ -134,8 +134,10 @@ def c18_stages(tier):
 
 def c12_stages(tier):
     if tier == "quick":
-        return [wire_stage("C12", 200_000), wire_stage("C12", 160, name="miri", kind="miri", shards=16, timeout=600)]
-    return [wire_stage("C12", 6_000_000, timeout=1800), wire_stage("C12", 3200, name="miri", kind="miri", shards=16, timeout=2400)]
+        return [wire_stage("C12", 200_000), ptfs_stage("C12", 1_600, name="stack-toggles", core=False, timeout=1200),
+                wire_stage("C12", 160, name="miri", kind="miri", shards=16, timeout=600)]
+    return [wire_stage("C12", 6_000_000, timeout=1800), ptfs_stage("C12", 60_000, name="stack-toggles", core=False, timeout=2400),
+            wire_stage("C12", 3200, name="miri", kind="miri", shards=16, timeout=2400)]
 
 
 PROPS = {
@@ -435,11 +437,17 @@ PROPS = {
         "stages": c12_stages,
         "floor": 1000,
         "technique": "runtime monitoring: INIT replies checked against a protocol-derived negotiation oracle over randomized (major, minor, flags, flags2, "
-                     "extension presence, filesystem want set)",
+                     "extension presence, filesystem want set); behaviour probes of real VFS / passthrough / overlay stacks after INIT (switches observed through "
+                     "the client, compared with the features the INIT reply carries)",
         "level_text": "Random and boundary INIT requests (major 6/7/8/other, minors around every layout boundary, full / legacy / truncated bodies, "
                       "random capability words) against scripted filesystem option sets; the reply is decoded with the kernel layout and the set of "
                       "features the client would honour (extended bits only with FUSE_INIT_EXT) must equal offered AND wanted, with the reply size of "
-                      "the client's minor, version-mismatch handling, max_write/max_pages limits and exactly one filesystem init call.",
+                      "the client's minor, version-mismatch handling, max_write/max_pages limits and exactly one filesystem init call. "
+                      "Stage stack-toggles: random switch settings of a standalone passthrough, a VFS (random no_open/no_opendir/no_writeback/killpriv_v2 and "
+                      "out_opts subsets) with a passthrough mounted at / or /m before or after INIT, and a standalone overlay, each negotiated by a client of minor "
+                      "23..38 offering a random subset of the features that exist at its minor; afterwards OPEN/OPENDIR answering ENOSYS, an O_WRONLY handle being "
+                      "readable, WRITE|KILL_SUIDGID and OPEN(O_TRUNC)|KILL_SUIDGID clearing setuid for root, and FUSE_ATTR_DAX in LOOKUP replies must each imply the "
+                      "corresponding bit in the INIT reply as the client reads it; a second INIT to the VFS must be refused and change none of the answers.",
         "level_note": "The negotiation rule is the harness' reading of the uapi header and fs/fuse/inode.c (process_init_reply); FUSE_HAS_RESEND (bit 39) "
                       "is newer than the installed header.",
         "rule": "case = one INIT; distinct = (major class, minor class, extension present, INIT_EXT offered, extended bits wanted, extended bits offered, "
